@@ -446,7 +446,7 @@ Definition decode_item_header (fc : option N) (bs : list N) : res (list N * N * 
   | fb :: r =>
     let code := N.shiftr (N.land fb 252) 2 in
     let lb := N.to_nat (N.land fb 3) in
-    if (length r <? lb)%nat then Err EIndex else
+    if shorter r lb then Err EIndex else
     let len_ := be_val (firstn lb r) 0 in
     match fc with
     | Some c => if c =? code then Ok (skipn lb r, code, len_, N.of_nat (S lb)) else Err EValue
